@@ -128,9 +128,10 @@ def random_pair(rng, tier):
     margin = float(rng.uniform(1.05, 50))
     if lam_pos.size:
         Ga = Ga * (lam_pos.min() / margin)
-    K = sp.csr_matrix(eig.embed(Ka, n, act))
-    G = sp.csr_matrix(eig.embed(Ga, n, act))
-    desc = dict(src='random', n=n, n_active=na, cond=cond, band=band, kg_kind=kind, margin=margin)
+    us = gen.unit_scale(rng)
+    K = sp.csr_matrix(eig.embed(Ka, n, act) * us)
+    G = sp.csr_matrix(eig.embed(Ga, n, act) * us)
+    desc = dict(src='random', n=n, n_active=na, cond=cond, band=band, kg_kind=kind, margin=margin, unit_scale=us)
     return K, G, desc, na
 
 
@@ -204,7 +205,9 @@ def case_structure(rng, tier, which):
         c = Case({'src': which})
         return c.reject('%s building %s: %s' % (type(e).__name__, which, str(e)[:100]))
     k = min(k, max(1, len(gen.active_dofs(G)) - 2))      # the solvers refuse k >= number of amplitudes KG acts on
-    desc.update(k=k, sparse_solver=sparse)
+    us = gen.unit_scale(rng)
+    K = K * us; G = G * us
+    desc.update(k=k, sparse_solver=sparse, unit_scale=us)
     c = Case(desc)
     c.tag('src:%s_free' % which, 'sparse' if sparse else 'dense')
     monitors.drain('lb')
@@ -287,8 +290,10 @@ def run_case(rng, tier, idx):
     c.tag('src:' + mode, 'model:' + desc['panel']['model'], 'sparse' if sparse else 'dense')
     try:
         if mode == 'panel_free':
-            K = p.calc_k0(silent=True)
-            G = p.calc_kG0(silent=True)
+            us = gen.unit_scale(rng)
+            c.desc['unit_scale'] = us
+            K = p.calc_k0(silent=True) * us
+            G = p.calc_kG0(silent=True) * us
             na = len(gen.active_dofs(K))
             k = min(k, max(1, na - 2))
             monitors.drain('lb')
